@@ -342,6 +342,11 @@ func (m *KeyManager) rotateKeyIfNeeded(forceUpdate bool) error {
 	if err != nil {
 		return err
 	}
+	// The loaded dictionary can be the one being served (its content is read-only):
+	// work on a copy, it only becomes visible by the reload after a successful save.
+	if keys != nil {
+		keys = proto.Clone(keys).(*encryptionpb.KeyDictionary)
+	}
 	// Initialize if empty.
 	if keys == nil {
 		keys = &encryptionpb.KeyDictionary{
